@@ -14,6 +14,7 @@ def run(ck, fb):
     _run0(ck, fb)
     r13e(ck, fb)
     r13f(ck, fb)
+    r13g(ck, fb)
 
 
 def _run0(ck, fb):
@@ -275,3 +276,35 @@ def r13f(ck, fb):
                'do_refresh_process_range arms the health clock for instances selected by is_from_cluster() but leaves from_cluster set: '
                'time_check consumes the entry and skips it (is_enable_timeout() is false), so an HTTP instance whose owner node died is never '
                'expired by the node that took its service over', 'from_cluster = 0 for what is armed')
+
+
+def r13g(ck, fb):
+    ck.rule('R13g', 'every stored instance that is subject to the heartbeat clock has its clock armed: in Service::update_instance the '
+                    'healthy_timeout_set.add site is conditional on is_enable_timeout() == true and on nothing else (in particular not on how the '
+                    'update arrived): NamingActor::update_instance turns an instance of an owned service into a local one (from_cluster = 0) also '
+                    'when it arrives through a sync or a snapshot, and nobody else will ever arm it')
+    b = ck.body(SV + 'update_instance', 'R13g')
+    if not b:
+        return
+    adds = util.mut_calls_on_field(b, 'healthy_timeout_set', r'::add$')
+    ck.floor('R13g', 'healthy_timeout_set.add in update_instance', len(adds), 1)
+    for s in adds:
+        atoms = cfg.guard_atoms(b, s.bb)
+        en = [a for a in atoms if a[0] == 'call' and (a[1] or '').endswith('Instance::is_enable_timeout') and a[2] is True]
+        extra = []
+        for a in atoms:
+            if a in en:
+                continue
+            if a[0] == 'other':
+                if isinstance(a[1], dict) and a[1].get('k') == 'arg':
+                    nm = (b.locals[a[1]['l']].get('n') if a[1]['l'] < len(b.locals) else None) or ('parameter _%d' % a[1]['l'])
+                    extra.append('%s == %s' % (nm, a[2]))
+                continue
+            if a[0] in ('variant', 'notvariant', 'variantin') and 'Iterator>::next' in cfg.fmt_desc(a[3]):
+                continue
+            extra.append(cfg.fmt_atom(a))
+        ck.require(bool(en), 'R13g', 'update_instance:arms-under-is_enable_timeout', s.where(), 'the clock is armed without asking is_enable_timeout()')
+        ck.require(not extra, 'R13g', 'update_instance:arms-whenever-subject', s.where(),
+                   'the clock of an instance that is subject to the heartbeat time-out is armed only when %s: an HTTP instance of an owned service that '
+                   'arrives through a sync or snapshot (owner restarted, client already dead) is stored as local, never armed, and never expires' % extra,
+                   'conditional on is_enable_timeout() only')
